@@ -9,4 +9,6 @@ void plant(size_t, uintptr_t) {}
 bool plantPending() { return false; }
 uintptr_t runRegionBase() { return 0; }
 uint64_t allocationCount() { return 0; }
+void failAllocation(uint64_t) {}
+bool allocationFailureFired() { return false; }
 } // namespace simalloc
